@@ -599,9 +599,18 @@ func (c *ctx) bfs(r Run) (*runStats, error) {
 						v = lastStart.Viol
 					}
 					if strings.Contains(err.Error(), "worker timeout") && lastStart.Viol == nil {
-						// wall-clock watchdog of the harness: not an oracle; the rest of the chunk is dropped
-						results[ci] = chunkRes{lo: lo, lines: all, err: errWatchdog}
-						return
+						// The chunk did not finish within the harness' wall-clock limit. That alone is not an oracle (a loaded
+						// machine is slow). The item in flight is run again, alone, in a worker of its own: its few executions
+						// take milliseconds, so if they do not return within five minutes either, an execution does not return.
+						one := &pt.Job{Check: r.Check, Kind: "expand", Params: params, Items: [][]pt.Action{frontier[gi].h}}
+						one.Extra, _ = json.Marshal(map[string]interface{}{"keys": []string{frontier[gi].key}, "skip": map[string][]int{"0": skip[gi]}})
+						_, err1 := c.runJob(bin, one, 5*time.Minute)
+						if err1 == nil || !strings.Contains(err1.Error(), "worker timeout") {
+							// wall-clock watchdog of the harness: not an oracle; the rest of the chunk is dropped
+							results[ci] = chunkRes{lo: lo, lines: all, err: errWatchdog}
+							return
+						}
+						v = &pt.Violation{Sig: "hang:execution-does-not-return", Msg: "expanding this history (replaying it and executing each enabled next step, a few library calls each) does not return: run alone in a process of its own it was stopped after five minutes, and before that with its chunk after ten"}
 					}
 					c.record(r, hist, v, nil)
 					if lastStart.A != nil {
